@@ -351,8 +351,46 @@ def sym_paths(fn: T.Union[ast.FunctionDef, ast.AsyncFunctionDef], *, body: T.Opt
                 return None
         stmts = unroll_table_loops(list(stmts), lookup)
     for p in enumerate_paths(stmts, unroll=unroll, handlers=handlers, pure=pure or set()):
-        out.append(PathResolver(SymPath(p), mod=mod).run())
+        sp = PathResolver(SymPath(p), mod=mod).run()
+        if not _contradictory(sp):
+            out.append(sp)
     return out
+
+
+def _pure_key(t: T.Any) -> T.Optional[T.Any]:
+    """Identity of a tested value for pruning: a pure builtin predicate applied to the same already-evaluated operands (call identities inside the
+    operands are kept, so two evaluations of an impure call never coincide)."""
+    if is_call(t) and t[3] is None and t[2] in ('isinstance', 'len', 'bool', 'callable') and not t[5]:
+        return ('pure', t[2], t[4])
+    if isinstance(t, tuple) and t and t[0] == 'op' and t[1] in ('Is', 'IsNot', 'Eq', 'NotEq', 'In', 'NotIn', 'Lt', 'LtE', 'Gt', 'GtE'):
+        return t
+    return None
+
+
+def _contradictory(sp: SymPath) -> bool:
+    """The same pure predicate on the same values with two different outcomes on one path: the path is infeasible (typically after a helper was
+    spliced in and caller and callee both test `isinstance(value, X)` under different local names)."""
+    seen: T.Dict[T.Any, bool] = {}
+    written = False
+    for a in sp.actions:
+        if a.kind in ('write', 'setattr', 'setitem', 'aug', 'del'):
+            written = True
+        if a.kind != 'cond':
+            continue
+        k = _pure_key(a.term)
+        if k is None:
+            continue
+        neg = {'IsNot': 'Is', 'NotEq': 'Eq', 'NotIn': 'In'}
+        v = a.val
+        if k[0] == 'op' and k[1] in neg:
+            k, v = ('op', neg[k[1]], k[2]), not v
+        # comparisons over attribute chains may be invalidated by stores: only value-identified operands (calls, constants, names of locals) are trusted
+        if k[0] == 'op' and written and any(isinstance(x, tuple) and x and x[0] == 'name' and '.' in str(x[1]) for x in subterms(k)):
+            continue
+        if k in seen and seen[k] != v:
+            return True
+        seen.setdefault(k, v)
+    return False
 
 
 # ---------------------------------------------------------------------------
@@ -393,9 +431,11 @@ def _instantiate(callee: ast.FunctionDef, call: ast.Call, tag: str) -> T.Optiona
     if any(isinstance(n, (ast.Yield, ast.YieldFrom, ast.Await, ast.Global, ast.Nonlocal)) for n in ast.walk(callee)):
         return None
     params = [p.arg for p in a.args]
-    if not params or params[0] not in ('self', 'cls'):
-        return None
-    params = params[1:]
+    static = any(norm(d) == 'staticmethod' for d in callee.decorator_list)
+    if not static:
+        if not params or params[0] not in ('self', 'cls'):
+            return None
+        params = params[1:]
     bound: T.Dict[str, ast.AST] = {}
     if len(call.args) > len(params):
         return None
@@ -426,6 +466,51 @@ def _instantiate(callee: ast.FunctionDef, call: ast.Call, tag: str) -> T.Optiona
     for s in out:
         ast.fix_missing_locations(s)
     return out
+
+
+def returns_to_assign(body: T.List[ast.stmt], target: T.Optional[ast.AST]) -> T.Optional[T.List[ast.stmt]]:
+    """A helper body with early returns as straight-line code for its caller: `return E` becomes `target = E` (nothing when the value is not
+    used) and the statements after an `if` that may return are moved into the branches that fall through.  None when a return sits inside a
+    loop / try / with (not modelled)."""
+    def has_return(stmts: T.List[ast.stmt]) -> bool:
+        return any(isinstance(n, ast.Return) for st in stmts for n in ast.walk(st) if not isinstance(st, (ast.FunctionDef, ast.ClassDef)))
+
+    def rec(stmts: T.List[ast.stmt]) -> T.Optional[T.Tuple[T.List[ast.stmt], bool]]:
+        # returns (statements, falls_through)
+        out: T.List[ast.stmt] = []
+        for i, st in enumerate(stmts):
+            if isinstance(st, ast.Return):
+                if target is not None:
+                    val = st.value if st.value is not None else ast.Constant(value=None)
+                    a = ast.Assign(targets=[_copy.deepcopy(target)], value=val)
+                    ast.copy_location(a, st)
+                    ast.fix_missing_locations(a)
+                    out.append(a)
+                elif st.value is not None and any(isinstance(n, ast.Call) for n in ast.walk(st.value)):
+                    e = ast.Expr(value=st.value)
+                    ast.copy_location(e, st)
+                    out.append(e)
+                return out, False
+            if isinstance(st, ast.Raise):
+                out.append(st)
+                return out, False
+            if isinstance(st, ast.If) and has_return([st]):
+                rest = stmts[i + 1:]
+                b = rec(list(st.body) + _copy.deepcopy(rest))
+                o = rec(list(st.orelse) + _copy.deepcopy(rest))
+                if b is None or o is None:
+                    return None
+                new = _copy.copy(st)
+                new.body = b[0] or [ast.copy_location(ast.Pass(), st)]
+                new.orelse = o[0]
+                out.append(new)
+                return out, b[1] or o[1]
+            if has_return([st]):
+                return None
+            out.append(st)
+        return out, True
+    r = rec(list(body))
+    return None if r is None else r[0]
 
 
 def _returns(body: T.List[ast.stmt]) -> T.List[ast.Return]:
@@ -468,8 +553,10 @@ def inline_helpers(body: T.List[ast.stmt], helpers: T.Dict[str, ast.FunctionDef]
                     continue
         elif isinstance(st, ast.Expr):
             c = _callee_of(st.value, helpers)
-            if c is not None and not _returns(c.body):
+            if c is not None:
                 inst = expand(c, st.value)          # type: ignore[arg-type]
+                if inst is not None and _returns(inst):
+                    inst = returns_to_assign(inst, None)
                 if inst is not None:
                     out.extend(inst)
                     continue
@@ -484,6 +571,12 @@ def inline_helpers(body: T.List[ast.stmt], helpers: T.Dict[str, ast.FunctionDef]
                         out.extend(inst[:-1])
                         out.append(ast.copy_location(ast.Assign(targets=[_copy.deepcopy(st.targets[0])], value=last.value), st))
                         ast.fix_missing_locations(out[-1])
+                        continue
+                elif rets:
+                    inst = expand(c, st.value)      # type: ignore[arg-type]
+                    conv = returns_to_assign(inst, st.targets[0]) if inst is not None else None
+                    if conv is not None:
+                        out.extend(conv)
                         continue
         new = st
         if isinstance(st, (ast.If, ast.For, ast.AsyncFor, ast.While, ast.With, ast.AsyncWith, ast.Try)):
@@ -507,7 +600,7 @@ def private_helpers(cls: ast.ClassDef, stop: T.Iterable[str] = ()) -> T.Dict[str
     """Private (underscore, non-dunder) methods of a class: candidates for having been extracted from a public method."""
     stop = set(stop)
     return {s.name: s for s in cls.body if isinstance(s, ast.FunctionDef) and s.name.startswith('_') and not s.name.startswith('__') and s.name not in stop
-            and not s.decorator_list}
+            and all(norm(d) == 'staticmethod' for d in s.decorator_list)}
 
 
 # ---------------------------------------------------------------------------
